@@ -492,7 +492,7 @@ Qed.
 Lemma casefold_compare_at_k3 ucd i n str s b s2 : casefold_compare_at ucd i n str s = Some (b, s2) -> k3 s2 = k3 s.
 Proof.
   unfold casefold_compare_at.
-  destruct (lenN match cache_get (foldcache s) i with Some v => v | None => [] end <? n).
+  destruct (fst match cache_get (foldcache s) i with Some v => v | None => (0, []) end <? n).
   - destruct (utf8_tocasefold ucd (firstnN n (subject_from i s))); [|discriminate].
     intros E; injection E as _ <-. reflexivity.
   - intros E; injection E as _ <-. destruct (cache_get (foldcache s) i); reflexivity.
